@@ -417,7 +417,7 @@ def c08_monitor(case):
     return None
 
 
-def fill_check(ctx, monitor, n_quick, n_thorough, project, deps):
+def fill_check(ctx, monitor, n_quick, n_thorough, project, deps, kinds="FSD"):
     if not common_setup(ctx, deps):
         return
     found = False
@@ -453,7 +453,8 @@ def fill_check(ctx, monitor, n_quick, n_thorough, project, deps):
                                                    "case": c["lines"], "impl": c["impl"], "model": c["model"]})
                 found = True
         if not sigs:
-            mism = [c for c in cases if [project(x) for x in c["impl"]] != [project(x) for x in c["model"]]]
+            mism = [c for c in cases if c["hdr"][0] in kinds and
+                    [project(x) for x in c["impl"]] != [project(x) for x in c["model"]]]
             for c in mism[:2]:
                 ctx.add_violation("rendered output differs from the model (correspondence broken); no monitor fails on it",
                                   "fill-mismatch", {"family": "fill", "run_seed": run["seed"], "n": run["n"], "k": c["k"],
@@ -475,15 +476,34 @@ def check_C07(ctx):
                        "non-trivial = at least 3 class runs; distinct = (kind, class sequence, measured width)")
     ctx.assumptions = ["display width is measured with go-runewidth on the ANSI-stripped row (RUNEWIDTH_EASTASIAN=0)",
                        "user decorators are assumed to report their true width (built-in ones are proved to)"]
-    fill_check(ctx, c07_monitor, 2500, 200000, lambda l: l, FILL_DEPS | {"Props/C07.v"})
+    fill_check(ctx, c07_monitor, 2500, 200000, c07_project, FILL_DEPS | {"Props/C07.v"})
 
 
 def c08_project(line):
+    """C08 is about the cells inside the bar body"""
     pr = parse_runs(line)
     if pr is None:
         return line
     f = line.split()
     return " ".join(f[:2]) + " " + " ".join("%d:%d" % (c, w) for c, w in pr[0] if c in (2, 3, 4, 5) or 100 <= c < 1000)
+
+
+def c07_project(line):
+    """C07 is about widths, cuts and termination: the split of the bar body into
+    filler / refiller / tip / padding cells is C08's business, so those classes
+    are merged into one 'body' run"""
+    pr = parse_runs(line)
+    if pr is None:
+        return line
+    f = line.split()
+    runs = []
+    for c, w in pr[0]:
+        c2 = 9 if (c in (2, 3, 4, 5) or 100 <= c < 1000) else c
+        if runs and runs[-1][0] == c2:
+            runs[-1][1] += w
+        else:
+            runs.append([c2, w])
+    return " ".join(f[:2]) + " " + " ".join("%d:%d" % (c, w) for c, w in runs) + " W %d U %d" % (pr[1], pr[2])
 
 
 @check
@@ -492,4 +512,4 @@ def check_C08(ctx):
                        "width*current/total computed exactly; evaluation = one Fill call; non-trivial = at least 3 class runs")
     ctx.assumptions = ["'to within one rune': tolerance = widest of filler, refiller, tip frames",
                        "math.Round on the float64 quotient may differ from exact rounding by one cell only when width*current > 2^53"]
-    fill_check(ctx, c08_monitor, 2500, 200000, c08_project, FILL_DEPS | {"Props/C08.v"})
+    fill_check(ctx, c08_monitor, 2500, 200000, c08_project, FILL_DEPS | {"Props/C08.v"}, kinds="F")
